@@ -39,7 +39,12 @@ class Parser(Emitter):
             except Exception:
                 pass  # a host exception that refuses the assignment keeps its own traceback
 
-        if isinstance(result, formulaserror.XLError):
+        try:
+            is_error = isinstance(result, formulaserror.XLError)
+        except Exception:
+            # a host object whose introspection raises is not a usable result
+            is_error, result = True, formulaserror.ERROR
+        if is_error:
             error = str(formulaserror.from_message(result))
             result = None
         return {'result': result, 'error': error}
